@@ -422,6 +422,41 @@ def r06k(ck, prog):
     cg = CallGraph(prog)
     may = {g for g in cg.defined if cg.reachable({g}) & setters}
     n = 0
+
+    def unrendered(F, c, depth=0):
+        """functions (outermost) from whose entry the write at c is reached with nothing on the way that can render the rows; a
+        helper that only receives the msa passes the question on to its callers"""
+        prod = [x for x in F.body.calls() if x.callee in may and x is not c]
+        pos = [F.cfg.position(x) for x in prod]
+        if not F.cfg.reaches(None, F.cfg.position(c), avoid=[p_ for p_ in pos if p_ is not None]):
+            return []
+        a0 = c.args[0].strip(casts=True) if c.args else None
+        callers = [(G, x) for G, x in prog.callers_of(F.name) if "/tests/" not in G.file and G.cfg is not None]
+        if a0 is not None and a0.k == "DeclRefExpr" and a0.d.get("dk") == "Parm" and callers and depth < 3:
+            idx = F.param_index(a0.d["name"])
+            out = []
+            for G, x in callers:
+                # the call of the helper plays the part of the write in the caller; its msa argument is in the same position
+                if idx is not None and idx < len(x.args):
+                    out += unrendered_at(G, x, x.args[idx], depth + 1)
+            return out
+        return [(F, c)]
+
+    def unrendered_at(G, call, msa_arg, depth):
+        prod = [x for x in G.body.calls() if x.callee in may and x is not call]
+        pos = [G.cfg.position(x) for x in prod]
+        if not G.cfg.reaches(None, G.cfg.position(call), avoid=[p_ for p_ in pos if p_ is not None]):
+            return []
+        a0 = msa_arg.strip(casts=True)
+        callers = [(H, x) for H, x in prog.callers_of(G.name) if "/tests/" not in H.file and H.cfg is not None]
+        if a0.k == "DeclRefExpr" and a0.d.get("dk") == "Parm" and callers and depth < 3:
+            idx = G.param_index(a0.d["name"])
+            out = []
+            for H, x in callers:
+                if idx is not None and idx < len(x.args):
+                    out += unrendered_at(H, x, x.args[idx], depth + 1)
+            return out
+        return [(G, call)]
     for F in prog.all_functions:
         if "/tests/" in F.file or F.cfg is None:
             continue
@@ -429,13 +464,12 @@ def r06k(ck, prog):
             n += 1
             where = site(prog, c, "kalign_write_msa")
             prod = [x for x in F.body.calls() if x.callee in may and x is not c]
-            ck.inst("R06k", where, "%s writes an msa; calls that can render it first: %s" % (F.name, sorted({x.callee for x in prod}) or "none"), prog.config)
-            pos = [F.cfg.position(x) for x in prod]
-            if F.cfg.reaches(None, F.cfg.position(c), avoid=[p_ for p_ in pos if p_ is not None]):
-                ck.violation("R06k", "R06k/%s/never-final" % F.name, where,
-                             "%s reaches kalign_write_msa on a path that runs nothing able to set ALN_STATUS_FINAL (%s): the writer's gate "
+            ck.inst("R06k", where, "%s writes an msa; calls that can render it first: %s" % (F.name, sorted({x.callee for x in prod}) or "none (the question goes to the callers)"), prog.config)
+            for G, at in unrendered(F, c):
+                ck.violation("R06k", "R06k/%s/never-final" % G.name, site(prog, at, "kalign_write_msa"),
+                             "%s reaches kalign_write_msa%s on a path that runs nothing able to set ALN_STATUS_FINAL (%s): the writer's gate "
                              "refuses every msa that arrives this way - an alignment that was read cannot be written in another format" % (
-                                 F.name, ", ".join(sorted(setters)) + " set it"), prog.config)
+                                 G.name, "" if G is F else " (through %s)" % at.callee, ", ".join(sorted(setters)) + " set it"), prog.config)
     ck.floor("R06k", n, 2, "callers of kalign_write_msa")
 
 
